@@ -374,6 +374,65 @@ def check_r09a(repo, rep, uni, eff, scope, prefix=''):
     return nsites
 
 
+SCALAR_TYPES = ('Integer', 'Number', 'String', 'Boolean', 'DateTime',
+                'Keyword', 'Constant')
+
+
+def check_augmented_assignments(repo, rep, uni):
+    """R09e: `x += y` (and *=, |=, &=, -=) on a name that may hold a value
+    taken from an argument -- the argument itself, an element of a
+    collection argument, the result of a lambda -- changes that value in
+    place when it is a list, set or dict: `total += item` extends the
+    host's list.  Allowed: names holding only values made in the call, and
+    parameters declared with a scalar type."""
+    n = 0
+    for fi, role in uni.evaluation_time():
+        if not fi.module.name.startswith('yaql.standard_library'):
+            continue
+        env = None
+        top = fi
+        while top.parent_func is not None:
+            top = top.parent_func
+        if top.key not in uni.payload_ov:
+            continue     # a helper: what its parameters hold is declared
+            #              by the payloads that call it, not here
+        ovs = uni.payload_ov.get(fi.key) or []
+        scalar = set()
+        for ov in ovs[:1]:
+            for p in ov.params:
+                short = (p.type.cls or '').rsplit('.', 1)[-1]
+                pts = getattr(p.type, 'python_types', None) or []
+                if short in SCALAR_TYPES or (pts and all(
+                        t in ('builtins.int', 'builtins.float',
+                              'builtins.str', 'builtins.bool',
+                              'builtins.tuple', 'builtins.frozenset',
+                              'builtins.bytes', 'datetime.datetime',
+                              'datetime.timedelta') for t in pts)):
+                    scalar.add(p.name)
+        for st in model.walk_shallow(fi.node):
+            if not (isinstance(st, ast.AugAssign) and isinstance(
+                    st.target, ast.Name) and isinstance(
+                    st.op, (ast.Add, ast.Mult, ast.BitOr, ast.BitAnd,
+                            ast.Sub, ast.BitXor))):
+                continue
+            env = env or uni.env(fi)
+            v = env.ev(ast.Name(id=st.target.id, ctx=ast.Load()))
+            risky = sorted(t for t in v.tags if t[0] in (
+                'param', 'derived', 'hidden', 'ctx') and not (
+                t[0] == 'param' and len(t) > 1 and t[1] in scalar))
+            n += 1
+            rep.ob('R09e', '%s/%s' % (fi.key, model.norm(st)[:50]),
+                   not risky,
+                   '`%s`: %s may hold a value that came in through %s; if '
+                   'it is a list, set or dict the augmented assignment '
+                   'changes it in place -- host data bound to it '
+                   '(convertInputData off, a context variable) is changed '
+                   'by evaluating an expression; build a new value (x = x '
+                   '+ y)' % (model.norm(st), st.target.id, risky),
+                   loc=fi.module.loc(st), construct=model.norm(st))
+    rep.floor('augmented assignments examined', n, 8)
+
+
 def check_r09b(repo, rep, uni):
     """The finaliser returns a newly built object for every container
     branch."""
@@ -669,6 +728,10 @@ def run(repo, rep):
     scope = r09a_scope(uni)
     nsites = check_r09a(repo, rep, uni, eff, scope)
     check_r09b(repo, rep, uni)
+    rep.rule('R09e', 'AUGMENTED-ASSIGNMENTS-ON-OWN-VALUES: `x += y` only on '
+             'names holding values made in the call or parameters declared '
+             'scalar')
+    check_augmented_assignments(repo, rep, uni)
     nctx = check_r09c(repo, rep, uni)
     nattr = check_r09d(repo, rep, uni)
     # objects registered in the context (function objects, their helpers)
